@@ -164,9 +164,9 @@ def build(wd, kind, name=None, extra_flags=()):
     return exe
 
 
-def finish(rep, rule, exhaustive):
+def finish(rep, rule, exhaustive, level="model_checking"):
     rep.notes.pop("_last_exps", None)
     rep.notes.pop("_last_obs", None)
     nt = rep.notes.pop("_nontrivial", set())
     rep.cov["distinct_nontrivial"] = len(nt)
-    return rep.finish(rule=rule, exhaustive=exhaustive)
+    return rep.finish(level=level, rule=rule, exhaustive=exhaustive)
